@@ -78,6 +78,12 @@ PROPS = {
         "rule": "goroutines in {2,3,4,8} x operations per goroutine in {5,20,60,200} x GOMAXPROCS in {1,2,4,16} x {store, delegation.Attach}; programs (60% Put over a small link pool so that duplicates collide, 30% Get, 10% full iteration) derived from the seed. every case non-trivial; distinct: hash of (op,args)",
         "trusted_base": ["Model/Lock.lean (hand-written semantics of sync.RWMutex and of the three methods' critical sections)", "harness/facts.go (go/ast extractor)"],
     },
+    "C19": {
+        "manifest": {"text": "The full statement (at most quadratically many signature verifications for every proof-DAG shape) is FALSE of the code and is kept visible with its negation machine-checked: C19_not_quadratic (the kernel evaluates the instrumented model on a 15-delegation layered DAG: 255 verifications > 15^2, and C19_all_fail: all of it ends in Unauthorized), count_small (2^(d+1)-1 for d<=4). This is recorded as known finding C19/F1 (not a small safe repair). What the check decides on every run: the implementation's count, observed by a counting verifier handed out through the principal parser and as the authority, is compared with the instrumented model (accessC) on chains (depth 0-16), trees, layered DAGs of width 2 and 3 (with multi-capability tokens), failing and succeeding roots, and random worlds with sessions. The property is an upper bound, so fewer verifications than the model's exhaustive search never alarm; MORE verifications than it is a violation (C19-excess); exceeding n^2 while equal to the model's count is printed as KNOWN-FINDING C19/F1.", "design_ref": "5.19", "note": "trusted: Lean kernel (decide +kernel, no extra axioms); instrumented model Cost.lean (hand-written, compared count for count with the implementation); a general polynomial bound for sharing-free DAGs is not proved (pending)"},
+        "obligations": ob("UcantoModel.Props.C19", "C19.C19_not_quadratic", "C19.C19_all_fail", "C19.count_small"),
+        "rule": "shapes: chains depth 0-16, layered width 2 depth 1-9 (12 thorough), layered width 3 and trees depth 1-5, multi-capability layered, x {failing, succeeding roots}; plus 300 (5000) random worlds. non-trivial: at least one delegation besides the invocation. distinct: hash of the world",
+        "trusted_base": ["Model/Cost.lean (instrumented copy of the validator model)"],
+    },
     "C20": {
         "manifest": {"text": "Theorems on the model of carInbound.Accept + server.Handle + channel.Request: admits_spec (the negotiation admits a header iff it is empty or one of its comma separated media ranges, parameters and blanks aside, is the CAR type or */*), C20_415 / C20_406 / C20_400 / C20_200 (each status is answered exactly in its case), C20_nothing_runs (a 415/406/400 is decided before Execute is reached), C20_client (non-200 <=> error carrying the status); the pinned substring negotiation is kept with three machine-checked counterexamples. Correspondence: Server.Request on 7 content types x (18 media-range elements, all ordered pairs with two separators) x 7 body kinds (valid message, empty batch, empty, garbage, CAR whose root is not a message, CAR without roots, message with a missing invocation block) with a recording handler; the HTTP channel against a loopback server replying every status 200-599 with text and CAR bodies.", "design_ref": "5.20", "note": "trusted: Lean kernel; hand-written 30-line model of Accept/Handle/channel; net/http and the CAR/message decoders are outside the model (a body is classified by how it was built); header pairs are enumerated over a fixed element list, not all strings"},
         "obligations": ob("UcantoModel.Props.C20", "Http.admits_spec", "Http.C20_415", "Http.C20_406", "Http.C20_400", "Http.C20_200", "Http.C20_nothing_runs", "Http.C20_client",
